@@ -713,3 +713,45 @@ LEMMAS['rotate_twice'] = dict(
              'forall(c, 0, 2 * n, Xor(Xor(P, G), G)[c] == P[c])'],
     induction='n',
 )
+
+# ------------------------------------------------------------------ C03: a valid map preserves commutation relations
+# map order: rows 2i, 2i+1 are the images of X_i, Z_i; partner(l) = l + 1 (l even), l - 1 (l odd)
+PREDS['partner'] = (('l',), 'l + 1 if l % 2 == 0 else l - 1')
+PREDS['gram_map'] = (('M', 'N'),
+                     'forall(a, 0, 2 * N, forall(b, 0, 2 * N, AcqSum(M[a], M[b], N) % 2 == b2i(b == partner(a))))')
+LEMMAS['selacq_map'] = dict(
+    doc='for an image row of a valid map only its partner image contributes to a selected sum of symplectic forms',
+    params=[('sel', 'int1'), ('M', 'int2'), ('n', 'int'), ('l', 'int'), ('N', 'int')],
+    requires=['gram_map(M, N)', '0 <= l < 2 * N', 'n <= 2 * N'],
+    ensures=['SelAcq(sel, M, n, M[l], N) % 2 == b2i(0 <= partner(l) and partner(l) < n and sel[partner(l)] != 0)'],
+    induction='n',
+)
+LEMMAS['selacq_image'] = dict(
+    doc='sum over the rows selected by b of the symplectic form of Img(a) with the row = sum_l b_l a_partner(l)  (mod 2)',
+    params=[('a', 'int1'), ('b', 'int1'), ('M', 'int2'), ('n', 'int'), ('N', 'int')],
+    requires=['N >= 0', 'gram_map(M, N)', 'bits2(M)', 'rows(M) == 2 * N', 'cols(M) == 2 * N', 'bits(a, 2 * N)', 'bits(b, 2 * N)', 'n <= 2 * N'],
+    ensures=['(SelAcq(b, M, n, OrdGRow(a, M, 2 * N), N) - PartnerSum(a, b, n)) % 2 == 0'],
+    induction='n',
+    uses_step=[('forall_lemma', [('c', '0', '2 * N')], 'ordg_bits', ['a', 'M', '2 * N', 'c']),
+               ('lemma', 'ordg_acq', ['a', 'M', '2 * N', 'M[n - 1]', 'N']),
+               ('lemma', 'selacq_map', ['a', 'M', '2 * N', 'n - 1', 'N']),
+               ('lemma', 'acq_antisym', ['M[n - 1]', 'OrdGRow(a, M, 2 * N)', 'N'])],
+    uses=[],
+)
+LEMMAS['partnersum_acq'] = dict(
+    doc='sum_l b_l a_partner(l) over the first 2m positions has the parity of the symplectic form of a and b on the first m qubits',
+    params=[('a', 'int1'), ('b', 'int1'), ('m', 'int')],
+    requires=['bits(a, 2 * m)', 'bits(b, 2 * m)'],
+    ensures=['(PartnerSum(a, b, 2 * m) - AcqSum(a, b, m)) % 2 == 0'],
+    induction='m', fuel=2,
+)
+LEMMAS['transform_preserves_acq'] = dict(
+    doc='C03: images under a valid map commute exactly when the originals do (the map is a symplectic transformation)',
+    params=[('a', 'int1'), ('b', 'int1'), ('M', 'int2'), ('N', 'int')],
+    requires=['N >= 0', 'gram_map(M, N)', 'bits2(M)', 'rows(M) == 2 * N', 'cols(M) == 2 * N', 'bits(a, 2 * N)', 'bits(b, 2 * N)'],
+    ensures=['(AcqSum(OrdGRow(a, M, 2 * N), OrdGRow(b, M, 2 * N), N) - AcqSum(a, b, N)) % 2 == 0'],
+    uses=[('forall_lemma', [('c', '0', '2 * N')], 'ordg_bits', ['a', 'M', '2 * N', 'c']),
+          ('lemma', 'ordg_acq', ['b', 'M', '2 * N', 'OrdGRow(a, M, 2 * N)', 'N']),
+          ('lemma', 'selacq_image', ['a', 'b', 'M', '2 * N', 'N']),
+          ('lemma', 'partnersum_acq', ['a', 'b', 'N'])],
+)
